@@ -88,6 +88,27 @@ CHECKS = {
         "quick": {"rapid_checks": 6000, "timeout": 900},
         "thorough": {"rapid_checks": 80000, "timeout": 3400, "shards": 16},
     },
+    "C08": {
+        "pkg": "./checks/c08",
+        "level": "exploration",
+        "assumptions": [
+            "fmt(x) = ParseString + TemplateFile.Write (what `templ fmt` does on stdin)",
+            "'the same program' = equal Go token streams after gofmt on both sides: comments, semicolons and trailing commas dropped, templ.Error Line/Col masked; nothing else is masked",
+            "whitespace mutations are applied to template bodies only (not to the package clause / imports) and only spellings that templ generate still accepts are judged",
+        ],
+        "quick": {"rapid_checks": 4000, "timeout": 900},
+        "thorough": {"rapid_checks": 60000, "timeout": 3400, "shards": 16},
+    },
+    "C09": {
+        "pkg": "./checks/c09",
+        "level": "exploration",
+        "assumptions": [
+            "fmt(x) = ParseString + TemplateFile.Write (what `templ fmt` does on stdin)",
+            "only inputs that templ generate accepts are judged",
+        ],
+        "quick": {"rapid_checks": 4000, "timeout": 900},
+        "thorough": {"rapid_checks": 60000, "timeout": 3400, "shards": 16},
+    },
     "C11": {
         "pkg": "./checks/c11",
         "level": "fault_enumeration",
